@@ -584,25 +584,25 @@ Section Redact.
   Definition parse (s : list N) : parsed :=
     let u := clean s in
     let '(scheme, rest) := split_scheme u in
+    let no_netloc :=
+      PUrl scheme [] (strip_params scheme (fst (split_first (N.eqb ch_q) (fst (split_first (N.eqb ch_hash) rest)))) uses_params) in
     match rest with
-    | 47 :: 47 :: r2 =>
-        let '(netloc, rest2) := span_until is_delim r2 in
-        if (mem_ch ch_lbr netloc && negb (mem_ch ch_rbr netloc)) || (mem_ch ch_rbr netloc && negb (mem_ch ch_lbr netloc))
-        then PInvalid
-        else if negb (netloc_ok netloc) then PInvalid
-        else
-          let nofrag := fst (split_first (N.eqb ch_hash) rest2) in
-          let path := fst (split_first (N.eqb ch_q) nofrag) in
-          PUrl scheme netloc (strip_params scheme path uses_params)
-    | _ =>
-        let nofrag := fst (split_first (N.eqb ch_hash) rest) in
-        let path := fst (split_first (N.eqb ch_q) nofrag) in
-        PUrl scheme [] (strip_params scheme path uses_params)
+    | c1 :: c2 :: r2 =>
+        if (c1 =? ch_slash) && (c2 =? ch_slash) then
+          let '(netloc, rest2) := span_until is_delim r2 in
+          if (mem_ch ch_lbr netloc && negb (mem_ch ch_rbr netloc)) || (mem_ch ch_rbr netloc && negb (mem_ch ch_lbr netloc))
+          then PInvalid
+          else if negb (netloc_ok netloc) then PInvalid
+          else
+            let nofrag := fst (split_first (N.eqb ch_hash) rest2) in
+            let path := fst (split_first (N.eqb ch_q) nofrag) in
+            PUrl scheme netloc (strip_params scheme path uses_params)
+        else no_netloc
+    | _ => no_netloc
     end.
 
-  (* _hostinfo *)
-  Definition hostinfo (netloc : list N) : list N * list N :=
-    let hi := after_last ch_at netloc in
+  (* _hostinfo, after the rpartition('@'): hi = the netloc after its last '@' *)
+  Definition hostinfo_of (hi : list N) : list N * list N :=
     match split_first (N.eqb ch_lbr) hi with
     | (_, Some bracketed) =>
         let '(h, after) := split_first (N.eqb ch_rbr) bracketed in
@@ -631,6 +631,26 @@ Section Redact.
 
   Definition invalid_text : list N := [60; 105; 110; 118; 97; 108; 105; 100; 45; 117; 114; 108; 62].   (* "<invalid-url>" *)
 
+  (* what redact_url renders from the scheme, the host:port part of the netloc (after the last '@') and the path *)
+  Definition render (scheme hp path : list N) : list N :=
+    let '(h, port) := hostinfo_of hp in
+    match h with
+    | [] => invalid_text
+    | _ =>
+        (* hostname: lower-case the part before '%' (zone id kept) *)
+        let '(hmain, zone) := split_first (N.eqb ch_pct) h in
+        let host := lower hmain ++ match zone with Some z => ch_pct :: z | None => [] end in
+        let rendered := if mem_ch ch_colon host && negb (match host with 91 :: _ => true | _ => false end)
+                        then [ch_lbr] ++ host ++ [ch_rbr] else host in
+        match port with
+        | [] => scheme ++ [ch_colon; ch_slash; ch_slash] ++ rendered ++ path
+        | _ =>
+            if forallb is_digit port && (digits_value 0 port <=? 65535)
+            then scheme ++ [ch_colon; ch_slash; ch_slash] ++ rendered ++ [ch_colon] ++ show_port (digits_value 0 port) ++ path
+            else invalid_text
+        end
+    end.
+
   Definition redact_url (s : list N) : list N :=
     match parse s with
     | PInvalid => invalid_text
@@ -638,24 +658,7 @@ Section Redact.
         match scheme, netloc with
         | [], _ => invalid_text
         | _, [] => invalid_text
-        | _, _ =>
-            let '(h, port) := hostinfo netloc in
-            match h with
-            | [] => invalid_text
-            | _ =>
-                (* hostname: lower-case the part before '%' (zone id kept) *)
-                let '(hmain, zone) := split_first (N.eqb ch_pct) h in
-                let host := lower hmain ++ match zone with Some z => ch_pct :: z | None => [] end in
-                let rendered := if mem_ch ch_colon host && negb (match host with 91 :: _ => true | _ => false end)
-                                then [ch_lbr] ++ host ++ [ch_rbr] else host in
-                match port with
-                | [] => scheme ++ [ch_colon; ch_slash; ch_slash] ++ rendered ++ path
-                | _ =>
-                    if forallb is_digit port && (digits_value 0 port <=? 65535)
-                    then scheme ++ [ch_colon; ch_slash; ch_slash] ++ rendered ++ [ch_colon] ++ show_port (digits_value 0 port) ++ path
-                    else invalid_text
-                end
-            end
+        | _, _ => render scheme (after_last ch_at netloc) path
         end
     end.
 End Redact.
